@@ -102,6 +102,7 @@ type State struct {
 	dirty map[string]bool // objects whose invariant this path has (possibly) broken
 	escaped map[string]bool // fresh objects stored somewhere
 	freshArrays []arrRec   // backing arrays allocated by this function
+	navOwner map[string]string // navigator value (term) -> the query value (term) whose Select produced it
 }
 
 type arrRec struct {
@@ -142,6 +143,10 @@ func (s *State) clone() *State {
 	}
 	n.allocTypes = append([]allocRec(nil), s.allocTypes...)
 	n.freshArrays = append([]arrRec(nil), s.freshArrays...)
+	n.navOwner = make(map[string]string, len(s.navOwner))
+	for k, v := range s.navOwner {
+		n.navOwner[k] = v
+	}
 	n.escaped = make(map[string]bool, len(s.escaped))
 	for k, v := range s.escaped {
 		n.escaped[k] = v
